@@ -11,7 +11,7 @@ Open Scope list_scope.
 
 (* ---------- the library instance, field by field ---------- *)
 Ltac lib := cbn [model_lib l_canon l_resolve l_resolve_abs l_is_dir l_is_file l_exists l_st_size l_read_text
-                 l_listing l_mkdir_parents l_write_new l_replace l_unlink l_token_hex].
+                 l_listing l_mkdir_parents l_open_new l_write l_replace l_unlink l_token_hex].
 
 (* ---------- _resolve_fully ---------- *)
 Lemma resolve_fully_tie : forall flt tok f base rel,
@@ -178,6 +178,43 @@ Proof.
   - unfold serve_file. rewrite El. reflexivity.
 Qed.
 
+(* the generated handle is the corrected model, without any hypothesis *)
+Lemma handle_tie_fixed_model : forall flt tok c f url,
+  norm_resp (gen_handle (model_lib flt tok) c f url) = resp_of_sout (handle_fixed c f url).
+Proof.
+  intros flt tok c f url. unfold gen_handle, handle_fixed. lib. unfold m_canon.
+  destruct (unquote url) as [up|k m|]; try reflexivity.
+  destruct (canon_strict (comps up) []) as [segs|] eqn:Ec; [|reflexivity].
+  cbv beta iota zeta.
+  rewrite (resolve_joined _ _ _ _ _ _ Ec). unfold nul_guard.
+  destruct (existsb (mem 0%N) segs); [reflexivity|].
+  destruct (resolve_fully f (s_root c) segs) as [fp| |] eqn:Er; try reflexivity.
+  cbn [rfull_res]. cbv beta iota. rewrite static_is_safe_path_tie. cbv beta iota.
+  destruct (path_prefixb (s_root c) fp) eqn:Ep; [|reflexivity].
+  unfold m_is_dir, m_exists, m_is_file, m_st_size, m_read_text.
+  destruct (name_too_long fp) eqn:En; [reflexivity|].
+  destruct (lstat f fp) as [[ct| |tg]|] eqn:El; cbv beta iota.
+  - serve_tail c ct En El.
+  - generalize (s_indices c) as idxs. intro idxs.
+    induction idxs as [|i rest IH].
+    + cbn [try_indices_fixed]. cbv beta iota. cbn [negb]. cbv iota. unfold listing, m_listing.
+      destruct (s_listing c); [|reflexivity].
+      destruct (existsb _ (children f fp)); reflexivity.
+    + cbn [try_indices_fixed]. cbv beta iota zeta.
+      destruct (pjoin fp i) as [b rel].
+      rewrite resolve_fully_tie. unfold nul_guard. cbn [fst snd].
+      destruct (existsb (mem 0%N) rel); cbv beta iota; [exact IH|].
+      destruct (resolve_fully f b rel) as [ip| |] eqn:Eri; cbn [rfull_res]; cbv beta iota;
+        [|exact IH|reflexivity].
+      rewrite static_is_safe_path_tie. cbv beta iota.
+      destruct (path_prefixb (s_root c) ip) eqn:Epi; [|exact IH].
+      destruct (name_too_long ip) eqn:Eni; [reflexivity|].
+      destruct (lstat f ip) as [[cti| |tgi]|] eqn:Eli; cbv beta iota; try exact IH.
+      cbn [negb]. cbv iota. serve_tail c cti Eni Eli.
+  - unfold serve_file. rewrite El. reflexivity.
+  - unfold serve_file. rewrite El. reflexivity.
+Qed.
+
 (* ---------- FileUploadHandler._resolve_target ---------- *)
 (* what _resolve_target computes (no containment test: handle_upload / _handle_delete apply _is_safe_path) *)
 Definition rt_spec (c : ucfg) (f : fs) (p : str) : res (option path) :=
@@ -316,75 +353,89 @@ Lemma res_pair_eta {A} (x : res A * fs) :
   (let '(a, w) := x in match a with Ok t => (Ok t, w) | Err k m => (Err k m, w) | OutOfModel => (OutOfModel, w) end) = x.
 Proof. destruct x as [[t|k m|] w]; reflexivity. Qed.
 
-(* ---------- FileUploadHandler.handle_upload: the save branch ---------- *)
-Definition model_save (c : ucfg) (f : fs) (r : ureq) (flt : fault) : uout * fs :=
+(* ---------- FileUploadHandler.handle_upload ---------- *)
+Lemma set_node_snoc f p n m : lstat f p = None -> set_node (f ++ [(p, n)]) p m = f ++ [(p, m)].
+Proof.
+  induction f as [|[q k] f IH]; cbn [lstat set_node app].
+  - rewrite path_eqb_refl. reflexivity.
+  - destruct (path_eqb p q); [discriminate|]. intro H. rewrite IH by assumption. reflexivity.
+Qed.
+Lemma snoc_match {A B} (l : list A) (x : A) (a b : B) :
+  match l ++ [x] with [] => a | _ :: _ => b end = b.
+Proof. destruct l; reflexivity. Qed.
+
+(* the save branch of StaticGlue.handle_upload_fixed *)
+Definition model_save_fixed (c : ucfg) (f : fs) (r : ureq) (flt : fault) (tok : str) : uout * fs :=
   match resolve_target c f (q_path r) with
   | OutOfModel => (UOom, f)
   | Err k _ => (URaise k, f)
   | Ok None => (UResp 59 (lit "Invalid path"), f)
   | Ok (Some t) =>
-      if name_too_long t then (UResp 40 (lit "Upload failed"), f) else
+      if name_too_long (removelast t) then (UResp 40 (lit "Upload failed"), f) else
       match mkdirs (S (length t)) f [] (removelast t) with
       | None => (UResp 40 (lit "Upload failed"), f)
       | Some f1 =>
-          match flt with
-          | Some _ => (UResp 40 (lit "Upload failed"), f1)
-          | None =>
-              match lstat f1 t with
-              | Some Dir => (UResp 40 (lit "Upload failed"), f1)
-              | _ => match t with
-                     | [] => (UResp 40 (lit "Upload failed"), f1)
-                     | _ => (UResp 20 (lit "text/gemini"), set_node f1 t (File (q_content r)))
-                     end
+          match t with
+          | [] => (UResp 40 (lit "Upload failed"), f1)
+          | _ =>
+              if name_too_long (tmp_of t tok) then (UResp 40 (lit "Upload failed"), f1) else
+              match lstat f1 (tmp_of t tok) with
+              | Some _ => (UResp 40 (lit "Upload failed"), f1)
+              | None =>
+                  match flt with
+                  | Some _ => (UResp 40 (lit "Upload failed"), f1)
+                  | None =>
+                      match lstat f1 t with
+                      | Some Dir => (UResp 40 (lit "Upload failed"), f1)
+                      | _ => (UResp 20 (lit "text/gemini"), set_node f1 t (File (q_content r)))
+                      end
+                  end
               end
           end
       end
   end.
 
-Lemma handle_upload_tie_partial : forall flt tok c f r,
-  (forall t, resolve_target c f (q_path r) = Ok (Some t) -> q_size r <> 0%N -> tmp_ok f t tok) ->
-  upload_out (gen_handle_upload (model_lib flt tok) c f r) = model_out (handle_upload c f r flt).
+(* the generated handle_upload is the corrected model, without any hypothesis *)
+Lemma handle_upload_tie_fixed_model : forall flt tok c f r,
+  upload_out (gen_handle_upload (model_lib flt tok) c f r) = model_out (handle_upload_fixed c f r flt tok).
 Proof.
-  intros flt tok c f r Htmp. unfold gen_handle_upload.
+  intros flt tok c f r. unfold gen_handle_upload.
   (* the two continuations of the admission checks: delete and save *)
   lazymatch goal with
   | |- context [if (q_size r =? 0)%N then ?A else ?B] => set (TD := A); set (TS := B)
   end.
-  change (handle_upload c f r flt) with
+  change (handle_upload_fixed c f r flt tok) with
     (if negb (token_ok c (q_token r)) then (UResp 60 (lit "Valid authentication token required"), f)
      else if (u_max c <? q_size r)%N then (UResp 50 (lit "Upload exceeds maximum size"), f)
      else if match u_types c with Some (t :: ts) => negb (existsb (eqb (q_mime r)) (t :: ts)) | _ => false end
           then (UResp 59 (lit "MIME type not allowed"), f)
-     else if (q_size r =? 0)%N then model_delete c f (q_path r) else model_save c f r flt).
+     else if (q_size r =? 0)%N then model_delete c f (q_path r) else model_save_fixed c f r flt tok).
   assert (HD : upload_out TD = model_out (model_delete c f (q_path r))).
   { subst TD. rewrite res_pair_eta. apply handle_delete_tie. }
-  assert (HS : (q_size r =? 0)%N = false -> upload_out TS = model_out (model_save c f r flt)).
-  { intro Hsz. subst TS. unfold model_save.
-    assert (Hnz : q_size r <> 0%N) by (apply N.eqb_neq; assumption).
-    specialize (fun t H => Htmp t H Hnz).
-    rewrite gen_resolve_target_eq. rewrite rt_spec_model in Htmp |- *.
-    destruct (rt_spec c f (q_path r)) as [[t|]|k m|] eqn:E; cbn [contained] in *; try reflexivity;
+  assert (HS : upload_out TS = model_out (model_save_fixed c f r flt tok)).
+  { subst TS. unfold model_save_fixed.
+    rewrite gen_resolve_target_eq. rewrite rt_spec_model.
+    destruct (rt_spec c f (q_path r)) as [[t|]|k m|] eqn:E; cbn [contained]; try reflexivity;
       [|exfalso; eapply rt_spec_noerr; eassumption].
     cbv beta iota zeta. rewrite upload_is_safe_path_tie. cbv beta iota.
-    destruct (path_prefixb (u_root c) t) eqn:Ep; [|reflexivity].
-    destruct (Htmp t eq_refl) as [Hlong Hfresh]. clear Htmp E Ep.
+    destruct (path_prefixb (u_root c) t) eqn:Ep; [|reflexivity]. clear E Ep.
     lib. unfold m_mkdir_parents, path_parent.
     induction t as [|x l _] using rev_ind.
     - (* the target is the filesystem root: with_name raises ValueError *)
-      unfold name_too_long. cbn [removelast length existsb mkdirs]. cbv beta iota.
-      destruct flt; [reflexivity|]. destruct (lstat f []) as [[| |]|]; reflexivity.
-    - rewrite tmp_of_snoc in Hlong, Hfresh.
-      assert (Hl : name_too_long (l ++ [x]) = false) by (eapply too_long_tmp; eassumption).
-      rewrite Hl. rewrite removelast_last.
-      rewrite name_too_long_app in Hl. apply orb_false_iff in Hl as [Hl _]. rewrite Hl.
+      unfold name_too_long. cbn [removelast length existsb mkdirs]. cbv beta iota. reflexivity.
+    - rewrite removelast_last.
+      destruct (name_too_long l) eqn:Hl; [reflexivity|].
       rewrite app_length. cbn [length]. rewrite Nat.add_1_r.
       destruct (mkdirs (S (S (length l))) f [] l) as [f1|] eqn:Em; [|reflexivity].
       cbv beta iota. rewrite path_name_snoc, path_with_name_snoc. cbv beta iota.
+      rewrite snoc_match, tmp_of_snoc.
       change (lit "." ++ x ++ lit "." ++ tok ++ lit ".tmp") with (tmp_name x tok).
-      unfold m_write_new. rewrite Hlong.
-      assert (Hf1 : lstat f1 (l ++ [tmp_name x tok]) = None).
-      { rewrite (mkdirs_lstat_long _ _ _ _ _ _ Em); [assumption|]. rewrite app_length. cbn [length]. lia. }
-      rewrite Hf1. destruct flt as [k|]; cbv beta iota.
+      unfold m_open_new.
+      (* open(tmp, "xb") fails (name over-long / exists): nothing was created, nothing is removed *)
+      destruct (name_too_long (l ++ [tmp_name x tok])); [reflexivity|].
+      destruct (lstat f1 (l ++ [tmp_name x tok])) as [n|] eqn:Hf1; [reflexivity|].
+      cbv beta iota. unfold m_write. rewrite lstat_snoc_same by assumption. cbv beta iota.
+      destruct flt as [k|]; cbv beta iota; rewrite set_node_snoc by assumption.
       + (* the write fails part-way: the temp file is removed again *)
         unfold m_unlink. rewrite lstat_snoc_same by assumption. cbv beta iota.
         rewrite remove_snoc by assumption. reflexivity.
@@ -392,7 +443,7 @@ Proof.
         rewrite lstat_snoc_other by apply tmp_differs.
         destruct (lstat f1 (l ++ [x])) as [[ct| |tg]|]; cbv beta iota;
           try (unfold m_unlink; rewrite lstat_snoc_same by assumption; cbv beta iota);
-          rewrite remove_snoc by assumption; destruct l; reflexivity. }
+          rewrite remove_snoc by assumption; reflexivity. }
   clearbody TD TS. unfold token_ok.
   destruct (u_tokens c) as [|tk tks]; cbv beta iota; cbn [negb].
   2: destruct (q_token r) as [[|x tkn]|]; [reflexivity| |reflexivity];
@@ -400,7 +451,39 @@ Proof.
   all: destruct (u_max c <? q_size r)%N; [reflexivity|].
   all: destruct (u_types c) as [[|ty tys]|]; cbv beta iota.
   all: try (destruct (existsb (eqb (q_mime r)) (ty :: tys)); cbn [negb]; [|reflexivity]).
-  all: destruct (q_size r =? 0)%N; [exact HD|exact (HS eq_refl)].
+  all: destruct (q_size r =? 0)%N; [exact HD|exact HS].
+Qed.
+
+(* where the corrected model and Model.Static.handle_upload agree *)
+Lemma upload_fixed_agrees : forall flt tok c f r,
+  (forall t, resolve_target c f (q_path r) = Ok (Some t) -> q_size r <> 0%N -> tmp_ok f t tok) ->
+  handle_upload_fixed c f r flt tok = handle_upload c f r flt.
+Proof.
+  intros flt tok c f r Htmp. unfold handle_upload_fixed, handle_upload.
+  destruct (negb (token_ok c (q_token r))); [reflexivity|].
+  destruct (u_max c <? q_size r)%N; [reflexivity|].
+  destruct (match u_types c with Some (t :: ts) => negb (existsb (eqb (q_mime r)) (t :: ts)) | _ => false end);
+    [reflexivity|].
+  destruct (q_size r =? 0)%N eqn:Ez; [reflexivity|]. apply N.eqb_neq in Ez.
+  destruct (resolve_target c f (q_path r)) as [[t|]|k m|]; try reflexivity.
+  destruct (Htmp t eq_refl Ez) as [Hlong Hfresh]. clear Htmp.
+  induction t as [|x l _] using rev_ind.
+  - unfold name_too_long. cbn [removelast length existsb mkdirs]. cbv beta iota.
+    destruct flt; [reflexivity|]. destruct (lstat f []) as [[| |]|]; reflexivity.
+  - rewrite tmp_of_snoc in *.
+    assert (Hl : name_too_long (l ++ [x]) = false) by (eapply too_long_tmp; eassumption).
+    rewrite Hl, Hlong, removelast_last.
+    rewrite name_too_long_app in Hl. apply orb_false_iff in Hl as [Hl _]. rewrite Hl.
+    destruct (mkdirs (S (length (l ++ [x]))) f [] l) as [f1|] eqn:Em; [|reflexivity].
+    rewrite (mkdirs_lstat_long _ _ _ _ _ _ Em) by (rewrite app_length; cbn [length]; lia).
+    rewrite Hfresh, !snoc_match. reflexivity.
+Qed.
+
+Lemma handle_upload_tie_partial : forall flt tok c f r,
+  (forall t, resolve_target c f (q_path r) = Ok (Some t) -> q_size r <> 0%N -> tmp_ok f t tok) ->
+  upload_out (gen_handle_upload (model_lib flt tok) c f r) = model_out (handle_upload c f r flt).
+Proof.
+  intros flt tok c f r H. rewrite handle_upload_tie_fixed_model, (upload_fixed_agrees _ _ _ _ _ H). reflexivity.
 Qed.
 
 (* ---------- the delete branch, stated against Model.Static.handle_upload ---------- *)
@@ -454,11 +537,12 @@ Lemma upload_tie_refuted_mkdir :
   = [([lit "u"], Dir); ([lit "u"; lit "p"], Dir); ([lit "u"; lit "p"; lit "q"], Dir)] /\
   snd (model_out (handle_upload cx_ucfg [([lit "u"], Dir)] (cx_req (lit "/p/q/" ++ long_name)) None)) = [([lit "u"], Dir)].
 Proof. split; vm_compute; reflexivity. Qed.
-(* (4) a file with the name of the temporary file exists: open(.., "xb") fails, and the cleanup handler unlinks
-   that (foreign) file; the model knows no temporary file *)
+(* (4) a file with the name of the temporary file exists: open(.., "xb") refuses it, the upload fails (40) and the
+   file is left alone (since commit 998dfce; before, the cleanup handler unlinked it); the model knows no temporary
+   file and reports success *)
 Definition cx4_fs : fs := [([lit "u"], Dir); ([lit "u"; tmp_name (lit "a") (lit "0123456789abcdef")], File (lit "other"))].
-Lemma upload_tie_refuted_collision :
+Lemma upload_tie_refuted_tmp_exists :
   upload_out (gen_handle_upload (model_lib None (lit "0123456789abcdef")) cx_ucfg cx4_fs (cx_req (lit "/a")))
-  = (UResp 40 [], [([lit "u"], Dir)]) /\
+  = (UResp 40 [], cx4_fs) /\
   fst (model_out (handle_upload cx_ucfg cx4_fs (cx_req (lit "/a")) None)) = UResp 20 [].
 Proof. split; vm_compute; reflexivity. Qed.
